@@ -235,6 +235,10 @@ def build_interface(idef, tagp, log):
         elif k == "const":
             ns[name] = ("idefault", tagp, name, "const")
     cls = type(tagp, (), ns)
+    if isinstance(idef["dispatch"], list):
+        # a composite dispatch value: a tuple of options
+        from labrea.collections import evaluatable_tuple
+        return interface(evaluatable_tuple(*[Option(k) for k in idef["dispatch"]]))(cls)
     return interface(idef["dispatch"])(cls)
 
 
@@ -297,7 +301,9 @@ def check_interfaces(case, ctx):
             val, exp = member_value(m["kind"], f"impl{t}", m["name"])
             ns[m["name"]] = val
             expected_vals[m["name"]] = exp
-        aliases = impl["aliases"]
+        aliases = [sem.alias_value(a) for a in impl["aliases"]]
+        if any(isinstance(a, tuple) for a in aliases):
+            labels.add("tuple-valued-alias")
         before = {(j, nm): dict(getattr(ifaces[j], nm).overloads.lookup) for (j, nm) in table}
         cls = type(f"Impl{t}", (), ns)
         try:
@@ -331,7 +337,11 @@ def check_interfaces(case, ctx):
     aliases_seen = set()
     for o in case["options"]:
         for j, d in enumerate(idefs):
-            disp = U.dotted_get(o, d["dispatch"])
+            if isinstance(d["dispatch"], list):
+                parts = [U.dotted_get(o, k) for k in d["dispatch"]]
+                disp = U.ABSENT if any(x is U.ABSENT for x in parts) else tuple(parts)
+            else:
+                disp = U.dotted_get(o, d["dispatch"])
             for m in d["members"]:
                 member = getattr(ifaces[j], m["name"])
                 got = run(member.evaluate, o)
@@ -356,7 +366,7 @@ def interface_cases(draw):
     idefs = []
     for j in range(n_if):
         names = draw(st.lists(st.sampled_from(MEMBERS), min_size=1, max_size=4, unique=True))
-        idefs.append({"dispatch": draw(st.sampled_from(["K", "R.K"])),
+        idefs.append({"dispatch": draw(st.sampled_from(["K", "R.K", "K", "R.K", ["K", "R.K"]])),
                       "members": [{"name": nm, "kind": draw(st.sampled_from(["ann", "abstract", "default_ds", "default_fn", "default_eval", "const"]))} for nm in names]})
     impls = []
     for t in range(draw(st.integers(1, 4))):
@@ -371,7 +381,9 @@ def interface_cases(draw):
         if mode == "unknown":
             chosen.append("zz_unknown")
         chosen = list(draw(st.permutations(chosen)))
-        impls.append({"interfaces": targets, "aliases": draw(st.lists(st.sampled_from(["a", "b", 1, 2]), min_size=1, max_size=2, unique=True)),
+        composite = any(isinstance(idefs[j % n_if]["dispatch"], list) for j in targets)
+        pool_a = ["a", "b", 1, 2] + ([{"tuple": ["a", 1]}, {"tuple": ["b", "a"]}, {"tuple": ["a", 1]}, {"tuple": [1, 2]}] if composite else [])
+        impls.append({"interfaces": targets, "aliases": draw(st.lists(st.sampled_from(pool_a), min_size=1, max_size=2, unique_by=repr)),
                       "members": [{"name": nm, "kind": draw(st.sampled_from(["fn", "ds", "const", "value"]))} for nm in chosen],
                       "via_interface": draw(st.booleans())})
     opts = []
@@ -385,6 +397,12 @@ def interface_cases(draw):
         if draw(st.integers(0, 3)) == 0:
             o["Y"] = "y"
         opts.append(o)
+    tuples = [a["tuple"] for im in impls for a in im["aliases"] if isinstance(a, dict)]
+    for tp in tuples[:2]:
+        # dictionaries whose composite dispatch value is a registered tuple alias, and near misses of it
+        opts.append({"K": tp[0], "R": {"K": tp[1]}})
+        opts.append({"K": tp[0], "R": {"K": draw(st.sampled_from(["a", "b", 1, 2]))}})
+        opts.append({"K": tp[0]})
     return {"interfaces": idefs, "impls": impls, "options": opts}
 
 
